@@ -314,6 +314,49 @@ func c10ScopeFamily(c *Ctx) {
 					}
 				}
 			}
+			if sub96 && !fam1 {
+				// the scope may be computed into a local on several ways and stored once: per way into the store, the
+				// value that carries the subtraction needs the family-1 outcome on that way
+				fam1 = true
+				seenSub := false
+				for _, p := range nearPaths(st, 64) {
+					v := p.value(st.Val)
+					has := false
+					for x := range backSlice(v, func(v ssa.Value) bool { _, isCall := v.(*ssa.Call); return isCall }) {
+						if bo, isBo := x.(*ssa.BinOp); isBo && bo.Op == token.SUB {
+							if k, isK := constInt(bo.Y); isK && k == 96 {
+								has = true
+							}
+						}
+					}
+					if _, stillPhi := unwrap(v).(*ssa.Phi); stillPhi && has {
+						fam1 = false // not resolved on this way
+					}
+					if !has {
+						continue
+					}
+					seenSub = true
+					ok1 := false
+					for _, f := range p.facts {
+						cmp, isB := f.V.(*ssa.BinOp)
+						if !isB {
+							continue
+						}
+						for _, pr := range [][2]ssa.Value{{cmp.X, cmp.Y}, {cmp.Y, cmp.X}} {
+							k, isK := constInt(pr[1])
+							if isK && k == 1 && isFamilyLoad(unwrap(pr[0])) && ((cmp.Op == token.EQL && f.Truth) || (cmp.Op == token.NEQ && !f.Truth)) {
+								ok1 = true
+							}
+						}
+					}
+					if !ok1 {
+						fam1 = false
+					}
+				}
+				if !seenSub {
+					fam1 = false
+				}
+			}
 			if sub96 {
 				c.Check(rule, key+"|offset-removed-for-family-1-only", fam1, st.Pos(), "the 96-bit offset is removed only when the echoed option is IPv4")
 			}
